@@ -115,6 +115,12 @@ func Sets() []*Set {
 		Attrs: []string{"title"}, Vals: []string{"x"}, MaxRank: 1,
 		Quick: true, FileKV: "quick", DupsQuick: "all", DupsThorough: "all"})
 
+	// 1b. a camliNodeType claim (feeds the by-node-type permanode sets of the corpus)
+	setType := A.SetAttr("set-nodetype", pn.Ref, "camliNodeType", "foursquare.com:checkin", T(1))
+	add(&Set{Name: "nodetype", Blobs: []hs.Blob{A.Pub, pn, setType},
+		Attrs: []string{"camliNodeType"}, Vals: []string{"foursquare.com:checkin"}, MaxRank: 1,
+		Quick: true, FileKV: "quick", DupsQuick: "none", DupsThorough: "all"})
+
 	// 2. + delete(permanode)
 	delPn := A.Delete("del-pn", pn.Ref, T(2))
 	add(&Set{Name: "delete-permanode", Blobs: []hs.Blob{A.Pub, pn, setTitle, delPn},
